@@ -67,7 +67,7 @@ def _orientation(r):
 
 SCENARIOS = ['regular', 'regular', 'regular', 'dups', 'gaps', 'gaps_hint', 'dups_gaps', 'jitter_in', 'jitter_out',
              'shear_in', 'shear_out', 'twin', 'hint_ok', 'hint_neg', 'hint_bad', 'unsorted', 'missing_jitter_in',
-             'missing_jitter_out', 'irregular', 'single', 'all_same']
+             'missing_jitter_out', 'irregular', 'single', 'all_same', 'hint_drift']
 
 
 def _scenario(r, idx, want=None):
@@ -146,17 +146,18 @@ def _scenario(r, idx, want=None):
         ks = [k0 + 2 * i for i in range(n)]
         opts['allow_missing_positions'] = True
         opts['spacing_hint'] = s
-        j = r.randrange(1, n)
-        # tolerance of the library in this mode is on the MULTIPLES: |m - round m| <= atol + rtol*round(m)
+        # tolerance of the library in this mode is on the MULTIPLES: |m - round m| <= atol + rtol*round(m); the plane two
+        # spacings above the lowest is moved (tol = 2*rtol <= 0.1, so 4*tol stays below half a spacing)
+        j = 1
         for kk in ('atol',):
             opts.pop(kk, None)
         rtol = opts.get('rtol', 0.01)
         atol = 0.0
         m = ks[j] - ks[0]
         tol = rtol * m
-        d = (tol / 4 if sc == 'missing_jitter_in' else min(4 * tol, 0.4)) * s * r.choice([-1, 1])
+        d = (tol / 4 if sc == 'missing_jitter_in' else 4 * tol) * s * r.choice([-1, 1])
         offs[j] = d * nrm
-        expect_ok = sc == 'missing_jitter_in' or abs(d) / s <= tol
+        expect_ok = sc == 'missing_jitter_in'
     elif sc in ('shear_in', 'shear_out'):
         n = max(n, 3)
         ks = [k0 + i for i in range(n)]
@@ -188,6 +189,15 @@ def _scenario(r, idx, want=None):
     elif sc == 'all_same':
         ks = [k0] * max(n, 2)
         opts['allow_duplicate_positions'] = True
+    elif sc == 'hint_drift':
+        # open finding C11-hint-drift: gaps allowed, hint within the 1 % tolerance of the true spacing, long stack
+        n = r.randint(70, 110)
+        ks = [k0 + i for i in range(n)]
+        opts.pop('rtol', None)
+        opts.pop('atol', None)
+        rtol, atol = 0.01, 0.0
+        opts['allow_missing_positions'] = True
+        opts['spacing_hint'] = s * (1 + r.choice([-1, 1]) * r.choice([0.0075, 0.0085, 0.009]))
     # positions
     pos = [origin + k * s * nrm + offs.get(i, np.zeros(3)) for i, k in enumerate(ks)]
     order = list(range(len(ks)))
@@ -711,6 +721,23 @@ def run(ctx):
     stage(lambda: _assembly_cases(ctx, reqs, pend), pend, 'p')
     ctx._order = marks
     _compare(ctx, reqs, pend, pend2)
+
+
+def attribute(failure, open_findings):
+    """Failures of the oracle that belong to an open known finding (call site + input class); anything else stays a
+    violation.  C11-hint-drift: get_volume_positions in the gaps branch with a spacing hint that differs from the true
+    spacing of the constructed stack."""
+    case = failure.get('case') if isinstance(failure, dict) else None
+    if not isinstance(case, dict) or failure.get('site') not in ('get_volume_positions', 'permutation'):
+        return None
+    opts = case.get('opts') or {}
+    exp = case.get('expected') or ()
+    if opts.get('allow_missing_positions') and 'spacing_hint' in opts and len(exp) >= 2 and exp[0] == 'ok' \
+            and abs(abs(opts['spacing_hint']) - exp[1]) > 1e-9 * exp[1]:
+        for f in open_findings:
+            if f.get('id') == 'C11-hint-drift':
+                return f['id']
+    return None
 
 
 def replay(ctx, case):
